@@ -71,6 +71,13 @@ fn unary_funcs() -> Vec<F> {
         f("abs", true, false, false),
         f("len", true, false, false),
         f("sum", true, true, true),
+        // built-ins that take exactly two arguments (element, index)
+        F { src: "ugt", accepts: [false, false, true, false] },
+        F { src: "includes", accepts: [false, false, true, false] },
+        F { src: "chunk", accepts: [false, false, true, false] },
+        F { src: "concat", accepts: [false, false, true, true] },
+        F { src: "format", accepts: [false, true, true, true] },
+        F { src: "min", accepts: [false, true, true, true] },
         f("5", false, false, false),
         f("nothing_bound", false, false, false),
     ]
@@ -251,7 +258,7 @@ pub fn run(ctx: &Ctx, replay: Option<&J>) -> i32 {
     finish(
         ctx,
         "exploration",
-        "every list (all words of length <= 3/4 over a 6-value alphabet plus periodic extensions to 10) x every function of a 32-entry pool (arity 1, 2, optional, rest, closures, curried, self-recursive, mutually recursive, built-ins of each arity class, non-functions) x the equivalent program pairs via/map, where/filter, into/application, unrolled element+index calls, reduce/unrolled fold, every/some vs fold of predicate results; both forms evaluated in the same session; distinct = distinct left-hand programs",
+        "every list (all words of length <= 3/4 over a 6-value alphabet plus periodic extensions to 10) x every function of a 38-entry pool (arity 1, 2, optional, rest, closures, curried, self-recursive, mutually recursive, built-ins of each arity class, non-functions) x the equivalent program pairs via/map, where/filter, into/application, unrolled element+index calls, reduce/unrolled fold, every/some vs fold of predicate results; both forms evaluated in the same session; distinct = distinct left-hand programs",
         true,
         None,
     )
